@@ -28,6 +28,8 @@ def tu_for(tracking):
         s += 'namespace vf { auto root_bolcc(const InE_cr_crlf& in, const position& p) { return in.begin_of_line( p ); } }\n'
         s += 'namespace vf { auto root_eolcc(const InE_cr_crlf& in, const position& p) { return in.end_of_line( p ); } }\n'
         s += 'namespace vf { auto root_eollf(const InE_lf& in, const position& p) { return in.end_of_line( p ); } }\n'
+        s += 'namespace vf { auto root_eolcr(const InE_cr& in, const position& p) { return in.end_of_line( p ); } }\n'
+        s += 'namespace vf { auto root_eolcrlf(const InE_crlf& in, const position& p) { return in.end_of_line( p ); } }\n'
     return s
 
 
@@ -50,6 +52,10 @@ EOLSTART_CC = '''
 '''
 EOLSTART_LF = '''
 #define EOLSTART(q) (g_buf[q] == '\\n')
+'''
+EOLSTART_CR = EOLSTART_CC
+EOLSTART_CRLF = '''
+#define EOLSTART(q) (g_buf[q] == '\\r' && (q) + 1 < g_n && g_buf[(q) + 1] == '\\n')
 '''
 
 # trusted models of the library searches an implementation of end_of_line may use instead of the until<> loop
@@ -146,7 +152,7 @@ def jobs(tier):
                        desc='memory_input<%s>::end_of_line(position) (eol policy lf_crlf), real until< at< eolf > > on the lazy sub-input under a loop contract' % tr))
         # end_of_line() under the policies cr_crlf and lf (same real body, other Eol::match inside eolf)
         if tr == 'eager':
-            for key, pol, edef in (('eolcc', 'cr_crlf', EOLSTART_CC), ('eollf', 'lf', EOLSTART_LF)):
+            for key, pol, edef in (('eolcc', 'cr_crlf', EOLSTART_CC), ('eollf', 'lf', EOLSTART_LF), ('eolcr', 'cr', EOLSTART_CR), ('eolcrlf', 'crlf', EOLSTART_CRLF)):
                 out.append(Job('eol_%s_e' % pol, grp, key, con, ('C19', 'C03'), prelude=prelude(tr) + PRE + edef,
                                harness=H % {'it': 'vf_' + INPUT_TYPES[('eager', pol)], 'setup': setup + ' __CPROVER_assume(g_byte0 == 0 && g_col0 == 1); vf_exc.pending = 0;', 'call': '$ENTRY(&in, &p)'},
                                loops={(r'^bool tao::pegtl::internal::until<tao::pegtl::internal::at<tao::pegtl::internal::eolf> ?>::match<', 1, 'opt'): inv},
